@@ -35,7 +35,7 @@ Fixpoint check_from (wc : bool) (mc : Z) (nser : nat) (i : nat) (L : layout) (h 
   match h with
   | [] => None
   | (o, ob) :: r =>
-      if negb (op_ok L o) then Some (i, 4%nat) else
+      if negb (op_ok L o && write_ok o) then Some (i, 4%nat) else
       let L' := step2 wc mc L o in
       if negb (layout_ok L') then Some (i, 5%nat) else
       if negb (list_eqb row_eqb (read_all nser L') (o_dump ob)) then Some (i, 1%nat) else
